@@ -36,7 +36,7 @@ package store
 //@ define SI(s) = SI1(s) && SI2(s) && SI3(s) && SI4(s) && SI5(s) && SI6(s) && SI7(s)
 //@ define sameview(s) = forall k Bytes :: has(s, k) == old(has(s, k)) && (has(s, k) ==> val(s, k) == old(val(s, k)))
 
-//@ func (s *Store) getPrimaryKeyData(blk types.Block, indexKey []byte) (k []byte, v []byte, err error)  property C01
+//@ func (s *Store) getPrimaryKeyData(blk types.Block, indexKey []byte) (k []byte, v []byte, err error)  property C01 C13
 //@   requires SI(s)
 //@   requires ihit(Ein(s), Eblk(s), bytes(indexKey)) && keyof(blk) == Eblk(s)[ires(Ein(s), Eblk(s), bytes(indexKey))]
 //@   modifies s.index.$Ein, s.index.$pending
